@@ -112,6 +112,9 @@ func c18EvalOrder(c *Ctx, cs Case) {
 	if m := c.Drv.Ask("boot.order", hx(order)); m != strings.Join(names, ",") {
 		c.Fail(Failure{Kind: "tie", What: "boot.order", Case: cs, Model: m, Go: strings.Join(names, ",")})
 	}
+	// the code TRANSLATED from bootorder.Unmarshal (Gen.lean; theorems C18g_unmarshal*) on the same buffer content,
+	// against the names the real library returned (odd lengths included: the trailing byte is a last entry)
+	c.GenTieGo(cs, "bootorder.Unmarshal", strings.Join(names, ","), "gen.bootorder", hx(order))
 }
 
 func c18EvalNumber(c *Ctx, cs Case) {
@@ -597,6 +600,19 @@ func c18Gen(c *Ctx) {
 		if c.Rng.Intn(2) == 0 {
 			for j := 1; j < len(o); j += 2 {
 				o[j] = 0 // small numbers as on real machines
+			}
+		}
+		c18EvalOrder(c, Case{"op": "order", "order": hx(o)})
+	}
+	// odd lengths: a trailing single byte behind 0..24 complete entries (what becomes of it is stated by
+	// C18g_unmarshal_trailing; the naming oracle does not apply, the two ties do). Derived from the index, so that
+	// the random stream of the cases below is what it was.
+	for k := 0; k < 25 && c.NFailures() < 8; k++ {
+		o := make([]byte, 2*k+1)
+		for j := range o {
+			o[j] = byte(37*j + 11*k + 1)
+			if k%2 == 0 && j%2 == 1 {
+				o[j] = 0
 			}
 		}
 		c18EvalOrder(c, Case{"op": "order", "order": hx(o)})
